@@ -2,3 +2,12 @@ NOT_YET = {}
 claim("C01", "model_checking", "bounded-exhaustive input enumeration on the real builder vs reference model",
       "Every batch of the finite scopes POST/TERM/FIELD/REP/MIX/LARGE x chunk modes is built by the real builder and every dictionary, postings list, frequency, norm and location is compared with the reference model; extra terms/postings are differences like any other. Exhaustive inside the scope, nothing sampled.",
       TRUST, "DESIGN.md 5 C01", E1)
+claim("C02", "model_checking", "bounded-exhaustive enumeration of merge inputs on the real merger vs reference model and vs rebuild",
+      "Every list of <=2 (thorough: <=3) segments over the MIX kinds x every deletion bitmap x configurations is merged by the real merger, loaded and fully observed; compared with the model's merge and, independently, with New(survivors). Includes zero-doc inputs, zero-survivor merges, previously merged inputs (1-hit terms) and large merges crossing 1024.",
+      TRUST, "DESIGN.md 5 C02", E1)
+claim("C03", "model_checking", "bounded-exhaustive enumeration of merge inputs; DocumentNumbers vs model plus content check",
+      "Same sweep as C02; the reported old->new map is compared entry by entry with the model, Count with the survivor count, and the _id of every surviving document is looked up at its reported new number (stored value and _id term). Public Merge/WriteTo/DocumentNumbers path included.",
+      TRUST, "DESIGN.md 5 C03", E1)
+claim("C16", "model_checking", "bounded-exhaustive enumeration of built/loaded/merged/re-merged segments; stats vs model",
+      "CollectionStats of every field of every built, loaded, merged and merged-again segment of the scopes equals the model's definition; unknown fields are zero; CollectionStats.Merge adds component-wise on all ordered pairs of a measured value set.",
+      TRUST, "DESIGN.md 5 C16", E1)
